@@ -92,6 +92,26 @@ def one(cid, est, rng, big, wide=False):
                 c["w"] = [2] * m; kw["mkrwt"] = 2.0
     c["X"] = X.tolist()
     gm = make_gmat(X, pl, rng.random() < 0.5, rng)
+    taxa0 = list(gm.taxa); grp0 = list(gm.taxa_grp)          # the labels the rows of X were created with
+    if rng.random() < 0.4 and n >= 2:
+        # the genotype matrix has been used before: another relationship matrix was built from it and then reordered /
+        # sorted / grouped IN PLACE (nothing done to that matrix may reach back into its source)
+        try:
+            e0 = rng.choice(["molecular", "vanraden", "yang", "weighted"])
+            C0 = cls_of(e0)[0]
+            kw0 = {} if e0 == "molecular" else {("afreq" if e0 == "weighted" else "p_anc"): 0.5}
+            first = C0.from_gmat(gm, **kw0)
+            pm = list(range(n)); rng.shuffle(pm)
+            how = rng.choice(["reorder_taxa", "sort_taxa", "group_taxa", "reorder"])
+            if how == "reorder_taxa":
+                first.reorder_taxa(np.array(pm))
+            elif how == "reorder":
+                first.reorder(np.array(pm), axis=0) if "axis" in first.reorder.__code__.co_varnames else first.reorder_taxa(np.array(pm))
+            else:
+                getattr(first, how)()
+            c["reused"] = "%s:%s" % (e0, how)
+        except Exception as e:
+            c["reused"] = "failed: %s" % type(e).__name__
     use_factory = est in ("molecular", "vanraden") and rng.random() < 0.3
     try:
         with time_limit(30), np.errstate(all="ignore"):
@@ -106,8 +126,8 @@ def one(cid, est, rng, big, wide=False):
             c["K"] = [[rat(K[a, b], ok) for b in range(n)] for a in range(n)]
             c["glat"] = ok[0]
             c["sym"] = bool(np.array_equal(G, G.T))
-            c["taxaok"] = bool(obj.taxa is not None and list(obj.taxa) == list(gm.taxa))
-            c["grpok"] = bool(obj.taxa_grp is not None and list(obj.taxa_grp) == list(gm.taxa_grp))
+            c["taxaok"] = bool(obj.taxa is not None and list(obj.taxa) == taxa0 and list(gm.taxa) == taxa0)
+            c["grpok"] = bool(obj.taxa_grp is not None and list(obj.taxa_grp) == grp0 and list(gm.taxa_grp) == grp0)
             # summaries against direct linear algebra on the matrix (numerical, see assumptions)
             num = []
             if abs(obj.max() - G.max()) > 1e-12 or abs(obj.min() - G.min()) > 1e-12 or abs(obj.mean() - G.mean()) > 1e-12:
